@@ -128,6 +128,10 @@ pub fn batch_stream(run: &mut Run, rng: &mut Rng, n: usize) {
         }
         let format = match i % 3 { 0 => OutputFormat::Text, 1 => OutputFormat::Json, _ => OutputFormat::CSV(";".to_owned()) };
         let mode = rng.below(8);
+        // standard input carries an undecodable line every other time (the rows before it are printed, then the error is reported)
+        if mode == 1 && rng.chance(1, 2) {
+            if let Ok(mut b) = std::fs::read(&paths[0]) { b.extend_from_slice(b"\xff\xfe;1;2;0.5;x;\nlater;1;2;0.5;x;\n"); let _ = std::fs::write(&paths[0], &b); }
+        }
         // how the input reaches the program: file arguments, `FROM t::'file'` (one file), or --stdin (one file)
         let (query, mut args, stdin_bytes, used): (String, Vec<String>, Option<Vec<u8>>, Vec<PathBuf>) = if mode == 0 {
             // the file name inside the string literal is taken verbatim (C20): commas, blanks at either end, `--`, `;`, keywords
